@@ -39,3 +39,7 @@ func Locksvc(n int) *mpexec.System {
 	}
 	return s
 }
+
+func init() {
+	Register("locksvc", func(n int, args map[string]int) *mpexec.System { return Locksvc(n) })
+}
